@@ -90,6 +90,71 @@ WS2 = ["  ", "  ", " \t", "\t ", "\t\t"]
 CANON = {1: "glob%d", 2: "2014 Holder %d", 3: "LIC-%d", 4: "text line %d", 5: "name%d", 6: "Contact %d <c%d@example.org>"}
 POOLS = {1: PAT_POOL, 2: COPY_POOL, 3: SYN_POOL, 4: TEXT_POOL, 5: NAME_POOL, 6: CONTACT_POOL}
 
+# ---- character / encoding stress (notes/SIZE_STRESS.md part 2); comparisons are by code point, never normalised
+# one character per UTF-8 TRAILING byte 0x80..0xBF, in 2-, 2-, 3- and 4-byte encodings (code point = i mod 64)
+TRAIL = [[chr(0x100 + i), chr(0x400 + i), chr(0x4E00 + i), chr(0x1F600 + i)] for i in range(64)]
+
+
+def _lead_chars():
+    """one (assigned where possible, never white space) character per UTF-8 LEAD byte C2..DF, E0..EF, F0..F4"""
+    import unicodedata
+    out = []
+    for lead in list(range(0xC2, 0xE0)) + list(range(0xE0, 0xF0)) + list(range(0xF0, 0xF5)):
+        if lead < 0xE0:
+            cands = range((lead - 0xC0) << 6, ((lead - 0xC0) << 6) + 64)
+        elif lead < 0xF0:
+            cands = range(max(0x800, (lead - 0xE0) << 12), ((lead - 0xE0) << 12) + 0x1000, 37)
+        else:
+            cands = range(max(0x10000, (lead - 0xF0) << 18), min(0x110000, ((lead - 0xF0) << 18) + 0x40000), 4099)
+        ok = [c for c in cands if not 0xD800 <= c <= 0xDFFF and not chr(c).isspace() and chr(c) not in D1_CHARS
+              and chr(c).encode("utf-8")[0] == lead and c not in (0xFEFF, 0xFFFE, 0xFFFF)]
+        good = [c for c in ok if unicodedata.category(chr(c)) not in ("Cn", "Cc", "Co")]
+        out.append(chr((good or ok)[0]))
+    return out
+
+
+LEADS = _lead_chars() + ["\u0301", "\ufeff", "\u200d", "\u00df", "\u0130", "\U00010400"]
+# texts that are not NFC / NFKC stable and their precomposed / canonical twins: DIFFERENT values
+TWINS = [("caf\u00e9", "cafe\u0301"), ("\u00c5ngstr\u00f6m", "\u212bngstro\u0308m"), ("\u03a9hm", "\u2126hm"),
+         ("\u985e", "\uf9d0"), ("fi-le", "\ufb01-le"), ("ABC", "\uff21\uff22\uff23"), ("\ud55c", "\u1112\u1161\u11ab"),
+         ("a\u030a", "\u00e5")]
+HAZARDS = ["Stra\u00dfe", "\u0130stanbul", "\u0131d", "\u017fhort", "\u03c3\u03c2", "\U00010400\U00010428", "\ufeffBOM-first",
+           "mid\ufeffdle", "zw\u200dj\u200cnj", "soft\u00adhyphen", "\u200frtl\u200e", "\U0001f600", "\U0010ffff", "\u0301lone",
+           "zw\u200bsp", "x\u0445", "\u0105", "N\u0145"]
+# look-alikes that are white space for Python but NOT for the format: fine inside / at the end of a text
+# line (the codec and the reader keep them), unspecified at the edges of a first line and inside patterns
+LOOKALIKE_TEXT = ["nb\u00a0sp", "em\u2003sp", "id\u3000sp", "ends with nbsp\u00a0", "ends with em\u2003", "ends ideographic\u3000",
+                  "\u200b", "\ufeff", "tab then nbsp\t\u00a0"]
+_UNI = [a for t in TWINS for a in t] + HAZARDS
+TEXT_POOL += _UNI + [a + " and " + b for a, b in TWINS]
+COPY_POOL += ["2014 " + x for x in _UNI[::2]] + ["\u00a9 2001 " + b + " " + a for a, b in TWINS[:3]]
+SYN_POOL += [x for x in _UNI if x != "\u0301lone"][1::3] + ["GPL-2+ " + TWINS[0][0], "GPL-2+ " + TWINS[0][1]]
+PAT_POOL += [x + "/*" for x in _UNI[::2]] + [TWINS[0][0], TWINS[0][1], TWINS[1][0], TWINS[1][1]]
+NAME_POOL += _UNI[1::5]
+CONTACT_POOL += [x + " <x@example.org>" for x in _UNI[2::5]]
+TEXT_EDGE_POOL = TEXT_POOL + LOOKALIKE_TEXT            # bodies of license TEXT lines (never a first line)
+CODEC_POOL += _UNI + LOOKALIKE_TEXT
+
+
+def spice(rng, s, edges=True):
+    """rotate characters covering every UTF-8 trailing byte to the END of a payload and characters
+    covering every lead byte to its START (same length in code points when the payload is long)"""
+    if not edges or not s:
+        return s
+    r = rng.random()
+    if r < 0.30:
+        c = rng.choice(rng.choice(TRAIL))
+        s = (s[:-1] + c) if len(s) > 8 else s + c
+    if 0.22 < r < 0.40:
+        c = rng.choice(LEADS)
+        s = (c + s[1:]) if len(s) > 8 else c + s
+    return s
+
+
+for _c in [c for t in TRAIL for c in t] + LEADS:
+    assert not _c.isspace() and _c not in D1_CHARS, repr(_c)
+assert sorted({c.encode("utf-8")[-1] for t in TRAIL for c in t}) == list(range(0x80, 0xC0))
+assert {c.encode("utf-8")[0] for c in LEADS} >= set(range(0xC2, 0xF5))
 for _pool in (TEXT_POOL, COPY_POOL, SYN_POOL, PAT_POOL, NAME_POOL, CONTACT_POOL):
     for _s in _pool:
         assert _s and _s == _s.strip() and _s != "." and not any(c in _s for c in D1_CHARS), _s
@@ -179,7 +244,7 @@ class Conc:
             else:
                 lens = [size_len(rng) for _ in codes]
             for c, n in zip(codes, lens):
-                self.c.setdefault("b:%d" % c, sized_pattern(rng, n))
+                self.c.setdefault("b:%d" % c, spice(rng, sized_pattern(rng, n)))
         return [self.body(c) for c in codes]
 
     def get(self, key, make):
@@ -204,9 +269,9 @@ class Conc:
                 return f % ((code,) * f.count("%d"))
             if self.stress:
                 if part == 1:
-                    return sized_pattern(self.rng, size_len(self.rng))
-                return sized_text(self.rng, size_len(self.rng, 257 if part in (5, 6) else 4097))
-            return self.rng.choice(POOLS[part])
+                    return spice(self.rng, sized_pattern(self.rng, size_len(self.rng)))
+                return spice(self.rng, sized_text(self.rng, size_len(self.rng, 257 if part in (5, 6) else 4097)))
+            return spice(self.rng, self.rng.choice(TEXT_EDGE_POOL if part == 4 else POOLS[part]))
         return self.get("b:%d" % code, make)
 
     def line(self, enc, key):
@@ -430,6 +495,8 @@ def exec_doc(hdr, ops, start="api", form="lines", dumpform="str", edits=None):
     log.propagate = False
 
     def parse(text):
+        if form == "bytes":          # "encoding: Encoding to use, in case input is raw byte strings"
+            return C.Copyright(text.encode("utf-8").splitlines(True), encoding="utf-8", strict=True)
         return C.Copyright(text.splitlines(True) if form == "lines" else io.StringIO(text), strict=True)
 
     def dump(c):
@@ -509,7 +576,7 @@ def exec_doc(hdr, ops, start="api", form="lines", dumpform="str", edits=None):
 
 
 STAGE = {"build": "building the document", "dump": "dump()",
-         "load": "Copyright(dump().splitlines(True), strict=True)", "getters": "reading the re-parsed paragraphs",
+         "load": "Copyright(<lines / file object / UTF-8 byte lines of dump()>, strict=True)", "getters": "reading the re-parsed paragraphs",
          "dump2": "the second dump()", "edit": "changing the re-parsed document through its setters / add_*",
          "dump3": "dump() of the changed document", "load2": "the strict re-parse of the changed document",
          "getters2": "reading the paragraphs of the changed and re-parsed document",
@@ -656,7 +723,7 @@ def codec_concretize(case, conc):
         ws = conc.ws("p%d" % i, ind)
         if b == 2:
             body = conc.get("t%d" % i, lambda: ("line %d" % (i + 1)) if conc.canonical else (
-                sized_text(conc.rng, size_len(conc.rng, 70000)) if conc.stress else conc.rng.choice(CODEC_POOL)))
+                spice(conc.rng, sized_text(conc.rng, size_len(conc.rng, 70000)) if conc.stress else conc.rng.choice(CODEC_POOL))))
         else:
             body = "." if b == 1 else ""
         lines.append(ws + body)
@@ -776,7 +843,7 @@ def _doc_run(case, crc, seed, k, diag=None, nconc=None):
     """one execution of a document CASE: concretization k of the run's seed"""
     rng = random.Random("%s-%d-%d" % (seed, crc, k))
     conc = Conc(rng, canonical=(k == 0), stress=(nconc is not None and k == nconc))
-    form = "lines" if k == 0 else rng.choice(["lines", "lines", "file"])
+    form = "lines" if k == 0 else rng.choice(["lines", "lines", "file", "bytes"])
     dumpform = "str" if k == 0 else rng.choice(["str", "str", "file"])
     msg, o = check_doc_case(case, conc, form, dumpform, diag)
     return msg, o, {"kind": "doc", "case": case, "conc": conc.c, "form": form, "dumpform": dumpform, "crc": crc, "k": k}
@@ -938,15 +1005,15 @@ SYMS_OUT = ["W", "W2", "D"]
 def random_line(rng, sym, pool):
     if sym == "E":
         return ""
-    if sym == "W":
-        return rng.choice(WS1)
+    if sym == "W":           # white-space-only for the codec (str.strip): blanks, tabs, and NBSP & co
+        return rng.choice(WS1 + ["\u00a0", "\u3000"])
     if sym == "W2":
-        return rng.choice(WS2 + ["   "])
+        return rng.choice(WS2 + ["   ", " \u00a0", "\u2003\u00a0"])
     if sym == "D":
         return "."
     if sym == "ID":
         return rng.choice(WS1 + WS2) + "."
-    body = rng.choice(pool)
+    body = spice(rng, rng.choice(pool))
     if sym == "I":
         return rng.choice(WS1) + body
     if sym == "I2":
@@ -954,7 +1021,7 @@ def random_line(rng, sym, pool):
     return body
 
 
-def random_text(rng, maxlines, pool=TEXT_POOL):
+def random_text(rng, maxlines, pool=TEXT_EDGE_POOL):
     """a license text inside the domain: no white-space-only / lone-dot line, last line not empty"""
     n = rng.choice([0, 0, 1, 1, 2, 3, 4, 5, 6, 7, 8][:maxlines + 3])
     if maxlines >= 8 and rng.random() < 0.03:
@@ -971,33 +1038,38 @@ def random_text(rng, maxlines, pool=TEXT_POOL):
 
 def random_copy(rng):
     n = rng.choice([1, 1, 1, 2, 2, 3, 4])
-    lines = [rng.choice(COPY_POOL)]
+    lines = [spice(rng, rng.choice(COPY_POOL))]
     for _ in range(n - 1):
-        lines.append(rng.choice(WS1 + WS2) + rng.choice(COPY_POOL + ["."]))
+        lines.append(rng.choice(WS1 + WS2) + spice(rng, rng.choice(COPY_POOL + ["."])))
     return "\n".join(lines)
 
 
 def random_doc(rng):
-    hdr = {"name": rng.choice(NAME_POOL) if rng.random() < 0.4 else None,
-           "uc": [rng.choice(CONTACT_POOL) for _ in range(rng.choice([0, 0, 1, 1, 2, 3, 4]))],
-           "lic": [rng.choice(SYN_POOL), random_text(rng, 5)] if rng.random() < 0.35 else None}
+    hdr = {"name": spice(rng, rng.choice(NAME_POOL)) if rng.random() < 0.4 else None,
+           "uc": [spice(rng, rng.choice(CONTACT_POOL)) for _ in range(rng.choice([0, 0, 1, 1, 2, 3, 4]))],
+           "lic": [spice(rng, rng.choice(SYN_POOL)), random_text(rng, 5)] if rng.random() < 0.35 else None}
     ops = []
     for _ in range(rng.choice([0, 1, 1, 2, 2, 3, 3, 4, 5, 6])):
         if rng.random() < 0.6:
             np = rng.choice([1, 1, 2, 2, 3, 4, 5, 8])
-            pats = [rng.choice(PAT_POOL) for _ in range(np)]
+            pats = [spice(rng, rng.choice(PAT_POOL)) for _ in range(np)]
+            if np >= 2 and rng.random() < 0.15:                # a text and its normalisation twin in one list
+                pats[:2] = [x + "/*" for x in rng.choice(TWINS)]
             ops.append({"kind": "Files", "pats": pats, "copy": random_copy(rng),
-                        "syn": rng.choice(SYN_POOL), "text": random_text(rng, 8)})
+                        "syn": spice(rng, rng.choice(SYN_POOL)), "text": random_text(rng, 8)})
         else:
             ops.append({"kind": "License", "pats": [], "copy": None,
-                        "syn": rng.choice(SYN_POOL), "text": random_text(rng, 8)})
+                        "syn": spice(rng, rng.choice(SYN_POOL)), "text": random_text(rng, 8)})
+    if len(ops) >= 2 and rng.random() < 0.15:              # twin synopses, different texts
+        a, b = rng.sample(range(len(ops)), 2)
+        ops[a]["syn"], ops[b]["syn"] = ["LIC-" + x for x in rng.choice(TWINS)]
     for op in ops:                                         # a text line equal to the synopsis
         if op["text"] and rng.random() < 0.1:
             tl = op["text"].split("\n")
             tl[rng.randrange(len(tl))] = op["syn"]
             op["text"] = "\n".join(tl)
     start = "api" if rng.random() < 0.6 else "parsed"
-    return hdr, ops, start, rng.choice(["lines", "lines", "file"]), rng.choice(["str", "str", "file"])
+    return hdr, ops, start, rng.choice(["lines", "lines", "file", "bytes"]), rng.choice(["str", "str", "file"])
 
 
 # ---- size-stressed documents and line lists (notes/SIZE_STRESS.md)
@@ -1042,7 +1114,7 @@ def size_suite(rng, thorough):
     docs = []
 
     def add(hdr, ops, start="api", reqs=()):
-        docs.append((hdr, ops, start, rng.choice(["lines", "file"]), rng.choice(["str", "file"]), list(reqs)))
+        docs.append((hdr, ops, start, rng.choice(["lines", "file", "bytes"]), rng.choice(["str", "file"]), list(reqs)))
     # many patterns; joined length of the list at 72 / 80 / 256 / 4096
     add(H0, [files_para(rng, [sized_pattern(rng, rng.choice([3, 8, 17])) for _ in range(200)]),
              files_para(rng, [sized_pattern(rng, rng.choice([2, 9])) for _ in range(101)])],
@@ -1069,6 +1141,31 @@ def size_suite(rng, thorough):
         [small_para(rng, k) for k in kinds],
         reqs=[{"kind": "add", "para": small_para(rng, "Files")}, {"kind": "add", "para": small_para(rng, "License")}])
     add(H0, [small_para(rng, rng.choice(["Files", "License"])) for _ in range(101)], start="parsed")
+    # every UTF-8 trailing byte at the END and every lead byte at the START of license lines, copyright
+    # lines, patterns, synopses and header values
+    def tr(i, w):
+        return TRAIL[i % 64][w % 4]
+
+    def ld(i):
+        return LEADS[i % len(LEADS)]
+    add({"name": "name " + tr(5, 0), "uc": [ld(i) + " contact %d " % i + tr(i, 3) for i in range(64)],
+         "lic": [ld(7) + "HDR-" + tr(5, 1), "\n".join("hdr line %d %s" % (i, tr(i, 1)) for i in range(64))]},
+        [{"kind": "License", "pats": [], "copy": None, "syn": "ALL-" + tr(5, 2),
+          "text": "\n".join((rng.choice(["", " ", "\t"]) + ld(j) + " line %d " % j + tr(j, j // 64)) for j in range(256))},
+         files_para(rng, [ld(i) + "p-%d/" % i + tr(i, i) for i in range(64)],
+                    copy="\n".join([ld(3) + "2014 " + tr(5, 1)] + [" " + ld(i) + " %d holder " % i + tr(i, i + 1) for i in range(64)]),
+                    syn=ld(11) + "FILES " + tr(37, 2), text="x" + tr(5, 3))]
+        + [{"kind": "License", "pats": [], "copy": None, "syn": ld(i) + "L-%d" % i + tr(i, i + 2), "text": "t" + tr(i, i)} for i in range(64)],
+        reqs=[{"kind": "files", "r": 0.5, "pats": [tr(i, 1) for i in range(64)]},
+              {"kind": "lic", "r": 0.0, "keep_syn": True, "syn": "x", "text": "\n".join(tr(i, 0) + " again " + tr(i, 2) for i in range(64))}])
+    # texts and their normalisation twins as different values of one document
+    add({"name": TWINS[0][1], "uc": [t[0] for t in TWINS] + [t[1] for t in TWINS], "lic": None},
+        [files_para(rng, [x + "/*" for t in TWINS for x in t], copy="2014 " + TWINS[1][0] + "\n 2015 " + TWINS[1][1],
+                    syn="T-" + TWINS[0][0], text="\n".join(x for t in TWINS for x in t)),
+         files_para(rng, [x + "/*" for t in TWINS for x in reversed(t)], syn="T-" + TWINS[0][1], text="\n".join(x for t in TWINS for x in reversed(t)))]
+        + [{"kind": "License", "pats": [], "copy": None, "syn": "N-" + x, "text": x + "\n\n " + y} for t in TWINS for x, y in (t, t[::-1])],
+        start="parsed", reqs=[{"kind": "lic", "r": 0.3, "keep_syn": True, "syn": "x", "text": TWINS[2][1] + "\n" + TWINS[2][0]},
+                              {"kind": "files", "r": 0.9, "pats": [TWINS[3][1], TWINS[3][0]]}])
     if thorough:
         add(H0, [small_para(rng, rng.choice(["Files", "License"])) for _ in range(1000)])
         add(H0, [files_para(rng, [sized_pattern(rng, 5) for _ in range(1001)], text="\n".join(sized_lines(rng, 3, 65537)))])
@@ -1106,7 +1203,9 @@ def stressed_doc(rng, thorough):
 def codec_suite(rng, thorough):
     lists = [sized_lines(rng, 1000, 30), sized_lines(rng, 257, 20), sized_lines(rng, 3, 4097), sized_lines(rng, 2, 8193),
              [sized_text(rng, n) for n in (71, 72, 73, 79, 80, 81, 255, 256, 257, 1023, 1024, 1025)],
-             ["x", " " + sized_text(rng, 65536), "", "\t" + sized_text(rng, 65537)]]
+             ["x", " " + sized_text(rng, 65536), "", "\t" + sized_text(rng, 65537)],
+             [LEADS[j % len(LEADS)] + " line %d " % j + TRAIL[j % 64][j // 64] for j in range(256)],
+             [x for t in TWINS for x in t] + LOOKALIKE_TEXT + HAZARDS]
     if thorough:
         lists.append(sized_lines(rng, 10000, 10))
     return lists
@@ -1260,6 +1359,8 @@ def control_traces(traces):
     for t in traces:
         if not want:
             break
+        if (t["kind"] == "doc" and len(t["dump"]) > 80) or (t["kind"] == "codec" and len(t["ls"]) > 50):
+            continue                 # (controls are made from ordinary traces, not from the size suite)
         if t["kind"] == "doc" and t["load"]["err"] == "none":
             ps = t["load"]["paras"]
             if "swap" in want and len(ps) >= 2 and ps[0] != ps[1]:
@@ -1322,14 +1423,36 @@ def control_traces(traces):
     return out, sorted(want)
 
 
+def _validate_traces(ctx, traces, diag, controls=()):
+    """core.validate_traces with a fast serialisation (json.dump to a file object takes the slow pure
+    Python encoder: 8 s for the size-stressed batch; json.dumps takes the C encoder): same contract"""
+    path = os.path.join(ctx.work, "c17-traces-%d-%d.json" % (len(ctx.tlc_runs), random.getrandbits(30)))
+    nreal = len(traces)
+    with open(path, "w") as f:
+        f.write(json.dumps(list(traces) + list(controls)))
+    r = ctx.tlc("TraceCopyrightDoc", "TraceCopyrightDoc.cfg", workers=2, env={"TRACE_FILE": path, "TRACE_DIAG": diag},
+                want_tags={"ACCEPTED", "AT", "REJECT"}, java_opts=["-Xss16m"])
+    os.unlink(path)
+    if r.violated:
+        raise core.MachineryError("trace module TraceCopyrightDoc reported %s\n%s" % (r.violated, r.tail))
+    acc = set(v if isinstance(v, int) else v[0] for v in r.printed.get("ACCEPTED", []))
+    bad = [i for i in acc if i > nreal]
+    if bad:
+        raise core.MachineryError("trace module TraceCopyrightDoc accepted %d corrupted control trace(s): binding is vacuous" % len(bad))
+    ctx.extra["negative_controls_rejected"] = ctx.extra.get("negative_controls_rejected", 0) + len(controls)
+    prog = {}
+    for v in r.printed.get("AT", []):
+        if v[1] > prog.get(v[0], 0):
+            prog[v[0]] = v[1]
+    return acc, prog, r
+
+
 def validate(ctx, traces, with_controls=True):
     """returns (rejected ids (1-based), {id: matched steps}, {id: [diagnostic notes]}, controls info)"""
     controls, missing = control_traces(traces) if with_controls else ([], [])
     clean = [{k: v for k, v in t.items() if not k.startswith("_")} for t in traces]
     cclean = [{k: v for k, v in t.items() if not k.startswith("_")} for t in controls]
-    acc, _, r = core.validate_traces(ctx, "TraceCopyrightDoc", "TraceCopyrightDoc.cfg", clean,
-                                     extra_env={"TRACE_DIAG": "0"}, controls=cclean, workers=2,
-                                     java_opts=["-Xss16m"])
+    acc, _, r = _validate_traces(ctx, clean, "0", cclean)
     notes = {}
     for v in r.printed.get("REJECT", []):
         if v[0] <= len(traces):
@@ -1339,8 +1462,7 @@ def validate(ctx, traces, with_controls=True):
     if rejected:
         pick = [i for i in rejected if traces[i - 1]["kind"] == "doc"][:10] + [i for i in rejected if traces[i - 1]["kind"] == "codec"][:5]
         sub = [clean[i - 1] for i in pick]
-        _, prog, _ = core.validate_traces(ctx, "TraceCopyrightDoc", "TraceCopyrightDoc.cfg", sub,
-                                          extra_env={"TRACE_DIAG": "1"}, java_opts=["-Xss16m"])
+        _, prog, _ = _validate_traces(ctx, sub, "1")
         for j, i in enumerate(pick):
             info[i] = prog.get(j + 1, 0)
     return rejected, info, notes, (len(controls), missing)
@@ -1483,11 +1605,26 @@ def unspecified_zone(ctx):
         n += 1
         if o["exc"] not in ok_exc:
             ctx.drift("unspecified copyright text %r: %s %s" % (cp, o["exc"], o["msg"]))
-    for lines in ([""], [" "], ["", ""], ["a", " ", "."], [".", "."]):
+    obs = []
+    for lines in ([""], [" "], ["", ""], ["a", " ", "."], [".", "."], ["a", "\u00a0", "b"], ["a", "\u2003\u3000", "b"]):
         o = exec_codec(lines)
         n += 1
         if o["exc"] not in ok_exc:
             ctx.drift("unspecified line list %r: %s %s" % (lines, o["exc"], o["msg"]))
+        elif "\u00a0" in lines and o["out"] != lines:
+            obs.append("a line consisting of NBSP only is white space for the codec (str.strip): %r -> %r" % (lines, o["out"]))
+    # look-alike white space (NBSP, EM SPACE, IDEOGRAPHIC SPACE) is not white space for the format but is for
+    # str.strip / str.split / \\s: at the edges of a first line and inside patterns the outcome is unspecified
+    for kw in ({"syn": "GPL\u00a0"}, {"syn": "\u3000GPL"}, {"pats": ["nb\u00a0sp"]}, {"pats": ["em\u2003sp", "*"]},
+               {"copy": "2014 X\u00a0"}, {"text": "a\n\u00a0\nb"}):
+        op = dict({"kind": "Files", "pats": ["*"], "copy": "2014 X", "syn": "G", "text": "t"}, **kw)
+        o = exec_doc({"name": None, "uc": [], "lic": None}, [op])
+        n += 1
+        if o["exc"] not in ok_exc:
+            ctx.drift("unspecified input %r: %s %s" % (kw, o["exc"], o["msg"]))
+        elif o["exc"] or judge_doc(o, {"name": None, "uc": [], "lic": None}, [op]):
+            obs.append("%r does not round-trip (%s)" % (kw, o["exc"] or "value changed"))
+    ctx.extra["observations_outside_the_domain"] = obs
     ctx.extra["unspecified_inputs_executed"] = n
 
 
